@@ -97,8 +97,11 @@ DEME_CLASS_OF = z3.Function("deme_class_of", INT, INT)
 
 
 def class_id(name):
+    if not CLASS_IDS:
+        for i, c in enumerate(sorted(src.CLASSES)):      # deterministic numbering, independent of the order of use
+            CLASS_IDS[c] = i + 1
     if name not in CLASS_IDS:
-        CLASS_IDS[name] = len(CLASS_IDS) + 1
+        CLASS_IDS[name] = 1000 + len(CLASS_IDS)
     return CLASS_IDS[name]
 
 
@@ -189,6 +192,10 @@ class Ex:
         if key not in self.heap:
             self.heap[key] = z3.Array(f"H_{field}_{sort_key(sort).replace(' ', '_').replace('(', '').replace(')', '')}", REF, sort)
             self.__dict__.setdefault("_init_ids", {})[key] = self.heap[key].get_id()
+            if getattr(self, "closure_on", False) and not getattr(self, "binder_depth", 0) and not getattr(self, "pure_depth", 0):
+                self.closure_for(key)
+            elif getattr(self, "closure_on", False):
+                self.__dict__.setdefault("_closure_pending", []).append(key)
         return self.heap[key]
 
     def hset(self, field, sort, m):
@@ -248,46 +255,54 @@ class Ex:
         return r
 
     def good_heap(self):
-        """heap closure: the elements of an allocated list are allocated (or None).  Lists of ints share the
-        item map with lists of references; for them the fact is vacuous (it only makes fresh objects
-        differ from those integers)."""
-        for (field, sk), m in sorted(self.heap.items(), key=lambda kv: kv[0]):
-            if field.startswith("$len<"):
-                o3 = z3.Const(f"gh_o?{next(self.cnt)}", REF)
-                self.pc.append(z3.ForAll([o3], m[o3] >= 0, patterns=[m[o3]], qid=f"good_heap_len_{next(self.cnt)}"))
-            if field.startswith("$it0<") and m.sort().range() == z3.ArraySort(INT, INT) and \
-                    (field[5:].startswith("ref") or field[5:].startswith("list") or field[5:].startswith("arr") or field[5:].startswith("dict")):
-                part = field[5:-1]
-                ln = self.hmap(f"$len<{part}>", INT)
-                o = z3.Const(f"gh_o?{next(self.cnt)}", REF)
-                i = z3.Const(f"gh_i?{next(self.cnt)}", INT)
-                e = m[o][i]
-                self.pc.append(z3.ForAll([o, i], z3.Implies(z3.And(self.alloc[o], 0 <= i, i < ln[o]), z3.Or(e == 0, self.alloc[e])),
-                                         patterns=[e], qid=f"good_heap_{next(self.cnt)}"))
-        for (field, sk), m in sorted(self.heap.items(), key=lambda kv: kv[0]):
-            if field == "$dval" and m.sort().range() == z3.ArraySort(INT, INT):
-                d_, k_ = z3.Const(f"gh_d?{next(self.cnt)}", REF), z3.Const(f"gh_k?{next(self.cnt)}", INT)
-                has = self.hmap("$dhas", z3.ArraySort(INT, BOOL))
-                v_ = m[d_][k_]
-                self.pc.append(z3.ForAll([d_, k_], z3.Implies(z3.And(self.alloc[d_], has[d_][k_]),
-                                                              z3.And(z3.Or(v_ == 0, self.alloc[v_]), z3.Or(k_ == 0, self.alloc[k_]))),
-                                         patterns=[v_], qid=f"good_heap_dict_{next(self.cnt)}"))
-        # reference-valued fields of allocated objects point to allocated objects (or None)
-        heapy = {f for (c, f), ty in spec.FIELD_TYPES.items() if ty.is_heap and not f.startswith("$")}
-        for f in sorted(heapy):
-            self.hmap(f, INT)
-        for (field, sk), m in sorted(self.heap.items(), key=lambda kv: kv[0]):
-            if field in heapy and m.sort().range() == INT:
-                o2 = z3.Const(f"gh_o?{next(self.cnt)}", REF)
-                facts = [self.alloc[m[o2]]]
-                # the declared class of the field (when every declaration of this field name agrees)
-                tys = {repr(ty) for (c, f), ty in spec.FIELD_TYPES.items() if f == field}
-                if len(tys) == 1:
-                    ty = next(ty for (c, f), ty in spec.FIELD_TYPES.items() if f == field)
-                    if ty.kind == "ref" and ty.cls in src.CLASSES:
-                        facts.append(typeof(m[o2]) == class_id(ty.cls) if ty.exact else is_instance(m[o2], ty.cls))
-                self.pc.append(z3.ForAll([o2], z3.Implies(self.alloc[o2], z3.Or(m[o2] == 0, z3.And(facts))),
-                                         patterns=[m[o2]], qid=f"good_heap_{field}_{next(self.cnt)}"))
+        """heap closure facts for every heap map version that does not have them yet"""
+        for key in sorted(self.heap.keys()):
+            self.closure_for(key)
+
+    def closure_for(self, key):
+        """well-formed-heap facts for the current version of one heap map: references stored in allocated objects
+        (fields, list items, dict values) point to allocated objects of the declared class; list lengths are >= 0"""
+        m = self.heap[key]
+        done = self.__dict__.setdefault("_closure_done", {})
+        if (key, m.get_id(), self.alloc.get_id()) in done:
+            return
+        done[(key, m.get_id(), self.alloc.get_id())] = (m, self.alloc)
+        field, sk = key
+        if field.startswith("$len<"):
+            o3 = z3.Const(f"gh_o?{next(self.cnt)}", REF)
+            self.pc.append(z3.ForAll([o3], m[o3] >= 0, patterns=[m[o3]], qid=f"good_heap_len_{next(self.cnt)}"))
+            return
+        if field.startswith("$it0<") and m.sort().range() == z3.ArraySort(INT, INT) and \
+                field[5:].split("[")[0].split(":")[0].rstrip(">") in ("ref", "list", "arr", "dict"):
+            part = field[5:-1]
+            ln = self.hmap(f"$len<{part}>", INT)
+            o = z3.Const(f"gh_o?{next(self.cnt)}", REF)
+            i = z3.Const(f"gh_i?{next(self.cnt)}", INT)
+            e = m[o][i]
+            self.pc.append(z3.ForAll([o, i], z3.Implies(z3.And(self.alloc[o], 0 <= i, i < ln[o]), z3.Or(e == 0, self.alloc[e])),
+                                     patterns=[e], qid=f"good_heap_{next(self.cnt)}"))
+            return
+        if field == "$dval" and m.sort().range() == z3.ArraySort(INT, INT):
+            d_, k_ = z3.Const(f"gh_d?{next(self.cnt)}", REF), z3.Const(f"gh_k?{next(self.cnt)}", INT)
+            has = self.hmap("$dhas", z3.ArraySort(INT, BOOL))
+            v_ = m[d_][k_]
+            self.pc.append(z3.ForAll([d_, k_], z3.Implies(z3.And(self.alloc[d_], has[d_][k_]),
+                                                          z3.And(z3.Or(v_ == 0, self.alloc[v_]), z3.Or(k_ == 0, self.alloc[k_]))),
+                                     patterns=[v_], qid=f"good_heap_dict_{next(self.cnt)}"))
+            return
+        if field.startswith("$") or m.sort().range() != INT:
+            return
+        tys = {repr(ty) for (c, f), ty in spec.FIELD_TYPES.items() if f == field}
+        if not tys or not all(ty.is_heap for (c, f), ty in spec.FIELD_TYPES.items() if f == field):
+            return
+        o2 = z3.Const(f"gh_o?{next(self.cnt)}", REF)
+        facts = [self.alloc[m[o2]]]
+        if len(tys) == 1:
+            ty = next(ty for (c, f), ty in spec.FIELD_TYPES.items() if f == field)
+            if ty.kind == "ref" and ty.cls in src.CLASSES:
+                facts.append(typeof(m[o2]) == class_id(ty.cls) if ty.exact else is_instance(m[o2], ty.cls))
+        self.pc.append(z3.ForAll([o2], z3.Implies(self.alloc[o2], z3.Or(m[o2] == 0, z3.And(facts))),
+                                 patterns=[m[o2]], qid=f"good_heap_{field}_{next(self.cnt)}"))
 
     def snapshot(self):
         return (dict(self.heap), self.alloc)
@@ -768,6 +783,15 @@ class Ex:
     def assign(self, tg, v, fr):
         from . import models
         if isinstance(tg, ast.Name):
+            con = fr.contract
+            if con is not None and tg.id in con.locals and con.qual.split("#")[0] == (fr.fi.qual if fr.fi else None):
+                ty = con.locals[tg.id]
+                if ty.kind == "list" and v.ty.kind == "list":
+                    v = self.fit_list(v, ty)
+                elif ty.kind == "dict" and v.ty.kind == "emptydict":
+                    v = models.new_dict(self, ty.args[0], ty.args[1])
+                else:
+                    v = self.coerce(v, ty)
             fr.locals[tg.id] = v
         elif isinstance(tg, ast.Attribute):
             obj = self.ev(tg.value, fr)
